@@ -511,7 +511,13 @@ class Interp:
             raise _Break()
         elif isinstance(s, ast.Continue):
             raise _Continue()
-        elif isinstance(s, (ast.Import, ast.ImportFrom, ast.Global, ast.Nonlocal)):
+        elif isinstance(s, ast.Import):
+            for a in s.names:
+                env[a.asname or a.name.split(".")[0]] = External(a.name if a.asname else a.name.split(".")[0])
+        elif isinstance(s, ast.ImportFrom):
+            for a in s.names:
+                env[a.asname or a.name] = External(f"{s.module}.{a.name}" if s.level == 0 else a.name)
+        elif isinstance(s, (ast.Global, ast.Nonlocal)):
             pass
         else:
             raise self.err(f"statement outside the evaluable fragment: `{ast.unparse(s)[:60]}`", s, fi)
